@@ -247,21 +247,22 @@ def own_corpus_lines(prop):
 class C05:
     prop = "C05"
     lean_module = "Ogorek.Props.C05"
-    theorems = ["Ogorek.C05_decodes_back", "Ogorek.canon_of_rep", "Ogorek.exec_heapKeys", "Ogorek.decode_heapKeys", "Ogorek.C05_encodable",
+    theorems = ["Ogorek.C05_reencode", "Ogorek.C05_decodes_back", "Ogorek.rep_resolve", "Ogorek.canon_of_rep", "Ogorek.exec_heapKeys",
+                "Ogorek.decode_heapKeys", "Ogorek.C05_encodable",
                 "Ogorek.C16_resolved", "Ogorek.C16_result_wf", "Ogorek.C03_roundtrip"]
     trusted_base = TB_COMMON
-    level_text = ("Lean theorem C05_decodes_back: for EVERY byte string Decode accepts (from a fresh Decoder or any state satisfying the key "
-                  "invariant) and the plain value v its result stands for (containers unfolded; documented types; payloads < 4 GiB; no Call "
-                  "of the bytes / bytearray builtins - excluded by the property; with builtin maps no *big.Int key), at every protocol 0-5 at "
-                  "which Encode v returns no error, decoding exactly the bytes written succeeds, consumes them all and returns a result "
-                  "standing for the same v: identical in type and content. Proof: a new invariant over ALL executions - every container the "
+    level_text = ("Lean theorem C05_reencode (the fuzz target's invariant, for the model): for EVERY byte string a fresh Decoder accepts whose "
+                  "result, containers unfolded, is acyclic and of encodable shape (payloads < 4 GiB; no Call of the bytes / bytearray builtins "
+                  "- excluded by the property; with builtin maps no *big.Int key), at every protocol 0-5 at which Encode of that value "
+                  "returns no error, decoding exactly the bytes written succeeds, consumes them all and returns a result standing for the "
+                  "same value: identical in type and content (C05_decodes_back is the same from any decoder state and for any value the "
+                  "result stands for; rep_resolve: an acyclic result stands for its own unfolding). Proof: a new invariant over ALL executions - every container the "
                   "decoder builds holds hashable, pairwise different keys (exec_heapKeys by cases over all instructions, decode_heapKeys) - "
                   "makes the represented value canonical (canon_of_rep, mutual structural induction), then the round-trip theorem "
                   "C03_roundtrip applies. That every resolved acyclic result consists of documented types is C16_resolved / C16_result_wf, "
                   "and that the encoder accepts every such value except for the three documented limitations - never a TypeError, never "
-                  "a panic - is C05_encodable. PARTIAL: at protocol 0 the float-text hypothesis of C03 (ParseFloat inverts %g); that the "
-                  "plain value exists for every acyclic result is shown by example, not in general; *big.Int keys of builtin maps. These "
-                  "are tied by correspondence: decode->encode(p)->decode is run by the implementation and by the model on every "
+                  "a panic - is C05_encodable. PARTIAL: at protocol 0 the float-text hypothesis of C03 (ParseFloat inverts %g); *big.Int keys of builtin maps "
+                  "(excluded by shapeOK). These are tied by correspondence: decode->encode(p)->decode is run by the implementation and by the model on every "
                   "successful input.")
     level_note = ("trusted: Lean kernel + standard axioms; encoder / decoder models; results with cycles, beyond the node budget, or containing "
                   "calls of the bytes / bytearray builtins are outside the statement (counted in the evidence)")
@@ -293,6 +294,18 @@ class C05:
         for m, n in ((b"m", b"a\n."), (b"m\n", b"n"), (b"m", b"\n"), (b"\nm", b"n\n"), (b"mod", b"a\nb"), (b"m", b"n\r"), (b"m", b"'\"")):
             sg = b"\x8c" + bytes([len(m)]) + m + b"\x8c" + bytes([len(n)]) + n + b"\x93"
             ins += [sg + b".", sg + b")R.", b"(" + sg + b"K\x01t.", b"\x80\x04" + sg + b"\x94."]
+        # one content as unicode, bytes and py2 str keys in every order (the py2 str equals both others, which differ):
+        # the decoded Dict must hold pairwise different keys, or re-encoding collapses it
+        import itertools
+        for content in (b"a", b"key"):
+            forms = {"u": b"X" + struct.pack("<I", len(content)) + content, "b": b"C" + bytes([len(content)]) + content,
+                     "s": b"U" + bytes([len(content)]) + content}
+            for order in itertools.permutations("ubs"):
+                ks = [forms[o] for o in order]
+                for wrap in (lambda k: k, lambda k: k + b"\x85", lambda k: b"K\x01" + k + b"\x86"):
+                    kv = [wrap(k) + b"K" + bytes([i + 1]) for i, k in enumerate(ks)]
+                    ins += [b"(" + b"".join(kv) + b"d.", b"}" + b"".join(x + b"s" for x in kv) + b".", b"}(" + b"".join(kv) + b"u.",
+                            b"}" + kv[0] + b"s(" + kv[1] + kv[2] + b"u."]
         for n in V.INT_LATTICE:
             ins.append(P.INT(n) + b".")
             ins.append(b"(" + P.LONG(n) + P.INT(n) + b"t.")
@@ -465,8 +478,35 @@ class C12:
                 ok = False
             if not ok:
                 ctx.disagree(sl[:2000], "pickletools rejects", vd, "Lean scanner vs pickletools.genops")
+        self.scan_reflect(ctx)
         for i in range(0, len(lines), max(1, len(lines) // 8)):
             ctx.sample(lines[i][:300] + " -> " + go[i][:200])
+
+    def scan_reflect(self, ctx):
+        """Go types no value token describes (structs incl. field-less ones, typed maps / slices / arrays, pointers,
+        named types): whatever the implementation writes for them at protocol p is scanned with the same table."""
+        rng = ctx.rng
+        n = ctx.scale(2500, 40000)
+        base = ctx.seed * 5000011
+        lines = [f"encr {base + i} {rng.randint(0, 5)} {rng.randint(0, 1)}" for i in range(n)]
+        go = C.run_sharded(C.run_go, lines)
+        scan_lines, scan_meta = [], []
+        for line, g in zip(lines, go):
+            ctx.evaluations += 1
+            if " => OK " not in g:
+                continue
+            desc, res = g.split(" => ", 1)
+            p = int(line.split(" ")[2])
+            data = bytes.fromhex("".join(c for c in res[3:].split(",") if c != "-"))
+            scan_lines.append(f"scan {p} {hexs(data)}")
+            scan_meta.append((line, desc))
+        for sl, (line, desc), vd in zip(scan_lines, scan_meta, C.run_sharded(C.run_lean, scan_lines)):
+            ctx.evaluations += 1
+            ctx.nontrivial(line)
+            ctx.count("scan-reflect:" + vd.split(" ")[0])
+            if vd != "OK":
+                ctx.violate("the encoder's output for a Go value does not conform to the requested protocol: " + vd,
+                            line + "   value: " + desc[:1200], "OK", sl[:1500])
 
 
 # ------------------------------------------------------------------------------------------- C13
@@ -498,19 +538,18 @@ class C13:
         for _ in range(ctx.scale(250, 5000)):
             g = V.ValueGen(rng, pydict=rng.random() < 0.5, su=rng.random() < 0.5, canonical=rng.random() < 0.7, maxdepth=rng.choice([2, 3, 4]))
             v = g.value()
-            if V.max_entries(v) > 1:
-                continue       # write order is arbitrary with several map entries: k-th write is not comparable
-            vals.append(v)
+            vals.append(v)     # with several map / Dict entries the write order is arbitrary: no tie then, the property itself is checked
         base_lines = []
         for v in vals:
             p, su = rng.randint(0, 5), rng.randint(0, 1)
             base_lines.append((p, su, v, f"enc {p} {su} - {V.render(v, sort=False)}"))
         base_go = C.run_sharded(C.run_go, [b[3] for b in base_lines])
         lines, meta = [], []
+        multi_of = {}
         for (p, su, v, bl), bg in zip(base_lines, base_go):
             if bg.startswith("OK "):
                 n = len(bg[3:].split(","))
-            elif bg.startswith("ERR "):
+            elif bg.startswith("ERR ") and V.max_entries(v) <= 1:
                 n = int(bg.split(" ")[2])
             else:
                 continue
@@ -520,19 +559,26 @@ class C13:
                 meta.append((n, k, bg))
             lines.append(f"encw {p} {su} {V.render(v, sort=False)}")
             meta.append((n, None, bg))
+            multi_of[len(lines) - 1] = V.max_entries(v) > 1
+            for j in range(len(lines) - len(ks) - 1, len(lines)):
+                multi_of[j] = V.max_entries(v) > 1
         go = C.run_sharded(C.run_go, lines)
         lean_lines = [l for l in lines if l.startswith("encf")]
         lean = iter(C.run_sharded(C.run_lean, lean_lines))
-        for line, (n, k, bg), g in zip(lines, meta, go):
+        for idx, (line, (n, k, bg), g) in enumerate(zip(lines, meta, go)):
             ctx.evaluations += 1
             ctx.nontrivial(line)
+            multi = multi_of.get(idx, False)
             if k is None:
                 ctx.count("buffering:" + g.split(" ")[0])
-                if g.startswith("DIFF") or g == "PANIC":
+                if (g.startswith("DIFF") and not multi) or g == "PANIC":
                     ctx.violate("the bytes written depend on how the Writer buffers", line[:3000], "SAME", g)
                 continue
             l = next(lean)
-            ctx.tie(line[:3000], g, l)
+            if multi:
+                ctx.count("fault:multi-entry(no tie)")
+            else:
+                ctx.tie(line[:3000], g, l)
             ctx.count("fault@" + ("within" if k <= n else "beyond"))
             if "PANIC" in g:
                 ctx.violate("Encode panicked with a failing Writer", line[:3000], "error", g)
